@@ -51,6 +51,12 @@ def run(replay=None):
                        '(0..5 / 0..3 in thorough) plus seeded random larger ones, with size_t indices as the library uses them; additionally extent tuples of uint8_t / uint16_t / uint32_t (boxes whose tuple count is a multiple of 2^8 / 2^16 among them); the callback sequence of utility::nd_map is compared '
                        'with the model sequence (equality) and judged by the property oracle (each tuple of the box exactly once); '
                        'non-trivial = at least two tuples visited; distinct by (dimension, extents)')
+    with core.Lock('coq'):
+        rep, tlog = core.translate()
+    for u in rep['untranslatable']:
+        if u['group'] == 'NdMap':
+            chk.obligation_broken('reading of ' + u['name'], u['why'])
+    chk.cov['recursion_scheme_in_source'] = {k: v for k, v in rep.get('ndmap', {}).items() if k != 'problems'} if isinstance(rep.get('ndmap'), dict) else None
     chk.prove('Properties_C19.v')
     with core.Lock('ocaml'):
         driver, dlog = core.build_driver('util')
